@@ -102,6 +102,8 @@ type e1 struct {
 	net  *Net
 
 	conn       *drpcconn.Conn
+	cli        drpc.Conn // what client scripts call: the connection itself, or a pool conn (pooled family)
+	pooled     *pooledState
 	cep, sep   *Endpoint
 	monC, monS *WireMonitor
 	lis        *Listener
@@ -288,6 +290,7 @@ func (x *e1) setup() {
 	// manager goroutines are children of a task.
 	x.rt.Spawn("cli-init", func() {
 		x.conn = drpcconn.NewWithOptions(x.cep, drpcconn.Options{Manager: x.managerOptions(c.SoftC)})
+		x.cli = x.conn
 		for j := 0; j < x.prog.NTasks; j++ {
 			j := j
 			x.cliTasksWG.Add(1)
@@ -437,7 +440,7 @@ func (x *e1) runClientRPC(r *rpcRec) {
 		out := &Msg{}
 		var err error
 		r.C.InCall++
-		x.call(fmt.Sprintf("Invoke rpc%d", spec.Idx), func() { err = x.conn.Invoke(ctx, spec.Name(), x.enc, in, out) })
+		x.call(fmt.Sprintf("Invoke rpc%d", spec.Idx), func() { err = x.cli.Invoke(ctx, spec.Name(), x.enc, in, out) })
 		r.C.InCall--
 		r.InvokeDone, r.InvokeErr = true, err
 		x.d.Record(taskName(), "invoke-return", fmt.Sprintf("rpc%d %s", spec.Idx, errStr(err)))
@@ -459,7 +462,7 @@ func (x *e1) runClientRPC(r *rpcRec) {
 	var st drpc.Stream
 	var err error
 	r.C.InCall++
-	x.call(fmt.Sprintf("NewStream rpc%d", spec.Idx), func() { st, err = x.conn.NewStream(ctx, spec.Name(), x.enc) })
+	x.call(fmt.Sprintf("NewStream rpc%d", spec.Idx), func() { st, err = x.cli.NewStream(ctx, spec.Name(), x.enc) })
 	r.C.InCall--
 	r.NewDone, r.NewErr = true, err
 	x.d.Record(taskName(), "newstream-return", fmt.Sprintf("rpc%d %s", spec.Idx, errStr(err)))
@@ -719,7 +722,7 @@ func (x *e1) runProbe() {
 		out := &Msg{}
 		var err error
 		r.C.InCall++
-		x.call("Invoke probe", func() { err = x.conn.Invoke(ctx, r.Spec.Name(), x.enc, in, out) })
+		x.call("Invoke probe", func() { err = x.cli.Invoke(ctx, r.Spec.Name(), x.enc, in, out) })
 		r.C.InCall--
 		r.InvokeDone, r.InvokeErr = true, err
 		r.RespOK = err == nil && bytes.Equal(out.B, x.respBytes(r.Spec))
